@@ -10,7 +10,7 @@ from . import common
 
 PROP = "C01"
 KQ = ("NL", "CE", "J", "W0", "CEG")
-KT = KQ + ('NLI', 'CO', 'CD')
+KT = KQ + ('NLI', 'CO')
 
 _allow = None
 UNIT_KEYWORDS = {"architecture", "entity", "package", "body", "process", "function", "procedure", "component", "context", "configuration", "block", "generate",
